@@ -31,7 +31,7 @@ BOX_KINDS = ("ListBox", "Frame", "Overlay")
 FRAME_PARTS = ("body", "header", "footer")
 COLS = [1, 3, 8, 20, 40]
 ROWS = [1, 2, 5, 10, 24]
-EDITS = ("insert", "append", "extend", "iadd", "delete", "delslice", "setslice", "clear", "clear_del", "clear_assign", "set", "replace", "pop", "reverse")
+EDITS = ("insert", "append", "extend", "iadd", "delete", "delslice", "setslice", "clear", "clear_del", "clear_assign", "set", "replace", "pop", "reverse", "remove", "sort", "imul")
 
 _LEAF_CLASSES = None
 
@@ -1167,6 +1167,34 @@ class _Run:
         elif m == "reverse":
             L.reverse()
             K.reverse()
+        elif m == "remove":
+            if not cnt:
+                return "skip-empty"
+            idx = op.get("i", 0) % cnt
+            if idx == fp0:
+                self.res.probe("focused_child_deleted")
+            L.remove(L[idx])  # (every child is in the list once: the first equal entry is this one)
+            del K[idx]
+        elif m == "sort":
+            # the application sorts the children (by a key of its own: here a rotation of the present order)
+            rot = op.get("a", 0) % max(1, cnt)
+            rank = {id(c.w): (j - rot) % max(1, cnt) for j, c in enumerate(K)}
+            L.sort(key=lambda it: rank[id(it[0] if isinstance(it, tuple) else it)])
+            K.sort(key=lambda c: rank[id(c.w)])
+            self.res.probe("children_sorted")
+        elif m == "imul":
+            # list *= 1 (nothing happens) or *= 0 (another way of emptying it)
+            if op.get("a", 0) % 2:
+                if cls == "ListBox":
+                    b.body *= 1
+                else:
+                    b.contents *= 1
+            else:
+                if cls == "ListBox":
+                    b.body *= 0
+                else:
+                    b.contents *= 0
+                K.clear()
         else:
             raise core.HarnessError(f"unknown edit {m!r}")
         self.check_model_sync(n, m)
